@@ -222,196 +222,11 @@ Proof.
   rewrite (is_nil_false _ Hn). replace (max_name_length <? lenN (c_name c)) with false by (symmetry; apply N.ltb_ge; flia).
   cbn [orb].
   (* networks *)
-  rewrite (read_opt_list_enc t_networks read_net enc_net);
-    [|assumption|unfold fits in *; lia|exact read_net_progress
-     |intros p rest Hp; apply read_net_enc; rewrite forallb_forall in Hnets; now apply Hnets
-     |intros p _; apply emit_tlv_nonempty
-     |intros _; solve_peek].
-  (* unsafe networks *)
-  rewrite (read_opt_list_enc t_unsafe read_net enc_net);
-    [|assumption|unfold fits in *; lia|exact read_net_progress
-     |intros p rest Hp; apply read_net_enc; rewrite forallb_forall in Huns; now apply Huns
-     |intros p _; apply emit_tlv_nonempty
-     |intros _; solve_peek].
-  (* groups *)
-  rewrite (read_opt_list_enc t_groups read_group enc_group);
-    [|assumption|unfold fits in *; lia|exact read_group_progress
-     |intros g rest Hg; apply read_group_enc; [now apply Hgrp|];
-      pose proof (flat_map_elem_len enc_group _ _ Hg) as X; unfold enc_group in X at 1;
-      pose proof (emit_tlv_length tag_utf8string g); unfold fits in *; lia
-     |intros g _; apply emit_tlv_nonempty
-     |intros _; solve_peek].
-  rewrite read_opt_bool_enc by (try assumption; solve_peek).
-  rewrite read_int64_enc by assumption.
-  rewrite read_int64_enc by assumption.
-  unfold details_only. destruct (c_issuer c) as [|i0 iss] eqn:Ei.
-  - cbn [is_nil]. reflexivity.
-  - cbn [is_nil]. rewrite <- (app_nil_r (emit_tlv t_issuer (i0 :: iss))).
-    rewrite read_optional_present by (try assumption; apply lenN_le_cap; flia). reflexivity.
-Qed.
-
-(* ---- the certificate ---- *)
-
-Lemma check_v2_details_wf c : check_v2 c = true -> int64_ok (c_nb c) = true -> int64_ok (c_na c) = true -> details_wf c.
-Proof.
-  unfold check_v2. intros H Hnb Hna. repeat (apply andb_prop in H as [H ?]).
-  repeat match goal with X : negb _ = true |- _ => apply negb_true_iff in X end.
-  unfold details_wf. repeat split; try assumption.
-  - now apply is_nil_false_iff.
-  - now apply N.leb_le.
-  - match goal with X : forallb net_ok_v2 _ = true |- _ => rename X into F end.
-    rewrite forallb_forall in *. intros p Hp. specialize (F p Hp). unfold net_ok_v2 in F.
-    apply andb_prop in F as [F _]. now apply andb_prop in F as [F _].
-  - match goal with X : forallb (unsafe_ok_v2 _ _ _) _ = true |- _ => rename X into F end.
-    rewrite forallb_forall in *. intros p Hp. specialize (F p Hp). unfold unsafe_ok_v2 in F.
-    now apply andb_prop in F as [F _].
-  - match goal with X : forallb (fun g => negb (is_nil g)) _ = true |- _ => rename X into F end.
-    rewrite forallb_forall in F. intros g Hg. specialize (F g Hg). apply negb_true_iff in F. now apply is_nil_false_iff.
-Qed.
-
-Lemma read_element_details c Y : fits (details_body c) ->
-  read_element t_details (encode_details c ++ Y) = Some (encode_details c, Y).
-Proof. intros H. unfold encode_details. apply read_element_emit; [discriminate|now apply lenN_le_cap]. Qed.
-
-Lemma is_nil_details c Y : is_nil (encode_details c ++ Y) = false.
-Proof. apply is_nil_emit_app. Qed.
-
-Definition issued_v2 (c : cert) : Prop :=
-  valid_v2 c = true /\ c_sig c <> [] /\ c_curve c < 256 /\ int64_ok (c_nb c) = true /\ int64_ok (c_na c) = true.
-
-Lemma rebuild_eq c cv pub sg : cv = c_curve c -> pub = c_pub c -> sg = c_sig c ->
-  mkCert (c_name (details_only c)) (c_nets (details_only c)) (c_unsafe (details_only c)) (c_groups (details_only c))
-         (c_isca (details_only c)) (c_nb (details_only c)) (c_na (details_only c)) (c_issuer (details_only c)) cv pub sg = c.
-Proof. intros -> -> ->. destruct c; reflexivity. Qed.
-
-(* the standard encoding: Marshal -> unmarshalCertificateV2(b, nil, dcurve) *)
-Theorem decode_encode_v2 c dcurve : issued_v2 c -> fits ((encode_v2 (seal_v2 c))) ->
-  (c_curve c = 0 -> dcurve mod 256 = 0) ->
-  decode_v2 [] dcurve (encode_v2 (seal_v2 c)) = Some (seal_v2 c).
-Proof.
-  intros (Hv & Hsig & Hcv & Hnb & Hna) HL Hd.
-  destruct t_good as (Gd & Gc & Gp & Gs & _).
-  pose proof (valid_v2_check _ Hv) as Hchk.
-  pose proof (check_v2_details_wf _ Hchk Hnb Hna) as Hwf.
-  assert (Hpub : c_pub c <> []).
-  { unfold check_v2 in Hchk. repeat (apply andb_prop in Hchk as [Hchk ?]).
-    match goal with X : negb (is_nil (c_pub c)) = true |- _ => apply negb_true_iff in X; now apply is_nil_false_iff end. }
-  unfold encode_v2, seal_v2 in *. cbn [c2 c2_raw] in *.
-  set (raw := encode_details c) in *.
-  set (inner := raw ++ _) in *.
-  pose proof (emit_tlv_length tag_sequence inner) as Li.
-  assert (Hinner : fits (inner)) by flia.
-  assert (Hparts : fits raw /\ fits (c_pub c) /\ fits (c_sig c)).
-  { unfold inner, fits in *. rewrite !app_length in Hinner.
-    pose proof (opt_bytes_len t_pubkey (c_pub c)). pose proof (emit_tlv_length t_signature (c_sig c)). flia. }
-  destruct Hparts as (Lraw & Lpub & Lsig).
-  unfold decode_v2.
-  replace (is_nil (emit_tlv tag_sequence inner)) with false
-    by (symmetry; rewrite <- (app_nil_r (emit_tlv _ _)); apply is_nil_emit_app).
-  replace (max_certificate_size <? lenN (emit_tlv tag_sequence inner)) with false
-    by (symmetry; apply N.ltb_ge; flia).
-  cbn [orb]. rewrite read_asn1_ok0 by (try exact seq_good; assumption).
-  unfold inner at 1 2. unfold raw at 1 2. rewrite is_nil_details.
-  pose proof (fits_details_body c Lraw) as Lbody.
-  rewrite read_element_details by assumption. fold raw.
-  (* curve *)
-  unfold read_opt_byte.
-  destruct (c_curve c =? 0) eqn:Ec.
-  - apply N.eqb_eq in Ec. cbn [app]. rewrite read_optional_absent by solve_peek.
-    rewrite (is_nil_false _ Hpub).
-    cbn [is_nil]. rewrite read_optional_present by (try assumption; now apply lenN_le_cap).
-    rewrite (is_nil_false _ Hpub). rewrite read_asn1_ok0 by assumption. rewrite (is_nil_false _ Hsig).
-    unfold raw. rewrite unmarshal_details_encode by assumption.
-    rewrite rebuild_eq by (try reflexivity; rewrite Hd by assumption; now symmetry).
-    now rewrite valid_v2_validate.
-  - apply N.eqb_neq in Ec. rewrite read_optional_present by (try assumption; cbn; unfold max_content; flia).
-    rewrite (is_nil_false _ Hpub).
-    cbn [is_nil]. rewrite read_optional_present by (try assumption; now apply lenN_le_cap).
-    rewrite (is_nil_false _ Hpub). rewrite read_asn1_ok0 by assumption. rewrite (is_nil_false _ Hsig).
-    unfold raw. rewrite unmarshal_details_encode by assumption.
-    rewrite rebuild_eq by (try reflexivity; apply N.mod_small; assumption).
-    now rewrite valid_v2_validate.
-Qed.
-
-(* the handshake encoding: MarshalForHandshakes -> unmarshalCertificateV2(b, publicKey, curve) *)
-Theorem decode_encode_hs_v2 c : issued_v2 c -> fits ((encode_hs_v2 (seal_v2 c))) ->
-  decode_v2 (c_pub c) (c_curve c) (encode_hs_v2 (seal_v2 c)) = Some (seal_v2 c).
-Proof.
-  intros (Hv & Hsig & Hcv & Hnb & Hna) HL.
-  destruct t_good as (Gd & Gc & Gp & Gs & _).
-  pose proof (valid_v2_check _ Hv) as Hchk.
-  pose proof (check_v2_details_wf _ Hchk Hnb Hna) as Hwf.
-  assert (Hpub : c_pub c <> []).
-  { unfold check_v2 in Hchk. repeat (apply andb_prop in Hchk as [Hchk ?]).
-    match goal with X : negb (is_nil (c_pub c)) = true |- _ => apply negb_true_iff in X; now apply is_nil_false_iff end. }
-  unfold encode_hs_v2, seal_v2 in *. cbn [c2 c2_raw] in *.
-  set (raw := encode_details c) in *.
-  set (inner := raw ++ _) in *.
-  pose proof (emit_tlv_length tag_sequence inner) as Li.
-  assert (Hinner : fits (inner)) by flia.
-  assert (Hparts : fits raw /\ fits (c_sig c)).
-  { unfold inner, fits in *. rewrite !app_length in Hinner.
-    pose proof (emit_tlv_length t_signature (c_sig c)). flia. }
-  destruct Hparts as (Lraw & Lsig).
-  unfold decode_v2.
-  replace (is_nil (emit_tlv tag_sequence inner)) with false
-    by (symmetry; rewrite <- (app_nil_r (emit_tlv _ _)); apply is_nil_emit_app).
-  replace (max_certificate_size <? lenN (emit_tlv tag_sequence inner)) with false
-    by (symmetry; apply N.ltb_ge; flia).
-  cbn [orb]. rewrite read_asn1_ok0 by (try exact seq_good; assumption).
-  unfold inner at 1 2. unfold raw at 1 2. rewrite is_nil_details.
-  pose proof (fits_details_body c Lraw) as Lbody.
-  rewrite read_element_details by assumption. fold raw.
-  unfold read_opt_byte. rewrite <- (app_nil_r (emit_tlv t_signature (c_sig c))).
-  rewrite read_optional_absent by solve_peek.
-  rewrite (is_nil_false _ Hpub). rewrite peek_tag_emit. change (t_signature =? t_pubkey) with false. cbv iota.
-  rewrite (is_nil_false _ Hpub). rewrite read_asn1_ok by assumption. rewrite (is_nil_false _ Hsig).
-  unfold raw. rewrite unmarshal_details_encode by assumption.
-  rewrite rebuild_eq by (try reflexivity; apply N.mod_small; assumption).
-  now rewrite valid_v2_validate.
-Qed.
-
-(* every certificate the v2 decoder returns obeys the rules validate() enforces on signing, its signature and key
-   are not empty, and its fields are: what unmarshalDetails reads from the kept details bytes, the curve, the key and
-   the signature, run through validate() *)
-Theorem decode_v2_sound pk dcurve b c : decode_v2 pk dcurve b = Some c ->
-  valid_v2 (c2 c) = true /\ c_sig (c2 c) <> [] /\ c_pub (c2 c) <> [] /\
-  exists d, unmarshal_details (c2_raw c) = Some d /\
-    validate_v2 (mkCert (c_name d) (c_nets d) (c_unsafe d) (c_groups d) (c_isca d) (c_nb d) (c_na d) (c_issuer d)
-                        (c_curve (c2 c)) (c_pub (c2 c)) (c_sig (c2 c))) = Some (c2 c).
-Proof.
-  unfold decode_v2. destruct (is_nil b || _); [discriminate|].
-  destruct (read_asn1 tag_sequence b) as [[inp r0]|]; [|discriminate].
-  destruct (is_nil inp); [discriminate|].
-  destruct (read_element t_details inp) as [[raw inp1]|]; [|discriminate].
-  destruct (read_opt_byte t_curve (dcurve mod 256) inp1) as [[curve inp2]|]; [|discriminate].
-  match goal with |- context [match ?e with Some _ => _ | None => None end = Some c -> _] => destruct e as [[pub inp3]|] end; [|discriminate].
-  destruct (is_nil pub) eqn:Ep; [discriminate|].
-  destruct (read_asn1 t_signature inp3) as [[sig r1]|]; [|discriminate].
-  destruct (is_nil sig) eqn:Es; [discriminate|].
-  destruct (unmarshal_details raw) as [d|] eqn:Ed; [|discriminate].
-  destruct (validate_v2 _) as [c'|] eqn:Ev; [|discriminate].
-  intros H; inversion H; subst; clear H. cbn [c2 c2_raw].
-  pose proof (validate_v2_valid _ _ Ev) as Hvalid.
-  assert (Hf : c_sig c' = sig /\ c_pub c' = pub /\ c_curve c' = curve).
-  { unfold validate_v2 in Ev. destruct (check_v2 _); [|discriminate]. inversion Ev; subst. now cbn. }
-  destruct Hf as (-> & -> & ->).
-  split; [exact Hvalid|]. split; [now apply is_nil_false_iff|]. split; [now apply is_nil_false_iff|].
-  exists d. split; [exact Ed|exact Ev].
-Qed.
-
-(* the handshake form is never longer than the standard form *)
-Lemma len_enc_mono a b : a <= b -> (length (len_enc a) <= length (len_enc b))%nat.
-Proof.
-  intros H. unfold len_enc.
-  repeat match goal with |- context [?x <? ?y] => destruct (N.ltb_spec x y) end; cbn [length be_enc]; lia.
-Qed.
-
-Lemma emit_tlv_mono t a b : (length a <= length b)%nat -> (length (emit_tlv t a) <= length (emit_tlv t b))%nat.
-Proof.
-  intros H. unfold emit_tlv, hdr_enc. rewrite !app_length. cbn [length].
-  pose proof (len_enc_mono (N.of_nat (length a)) (N.of_nat (length b))). lia.
-Qed.
-
-Lemma encode_hs_v2_shorter c : (length (encode_hs_v2 c) <= length (encode_v2 c))%nat.
-Proof. unfold encode_hs_v2, encode_v2. apply emit_tlv_mono. rewrite !app_length. lia. Qed.
+  rewrite (read_opt_list_enc t_networks read_net enc_net).
+  2: assumption.
+  2: { Time (unfold fits in *; lia). }
+  2: exact read_net_progress.
+  2: { Time (intros p rest Hp; apply read_net_enc; rewrite forallb_forall in Hnets; now apply Hnets). }
+  2: intros p _; apply emit_tlv_nonempty.
+  2: { intros _. Time repeat (rewrite peek_opt || rewrite peek_opt' || rewrite peek_tag_emit || rewrite peek_opt_end).
+       Time repeat match goal with |- context [if ?b then _ else _] => destruct b end. Time reflexivity. }
